@@ -10,8 +10,8 @@ from engine import Check
 from adapter import SARGS
 
 NARGS = len(SARGS)
-KEYCLS_DEFAULT = [0, 1, 1, 1, 2, 3, 4, 4, 5, 6, 7, 8, 8]
-KEYCLS_CUSTOM = [0, 1, 1, 1, 1, 1, 2, 2, 2, 1, 1, 1, 1]
+KEYCLS_DEFAULT = [0, 1, 1, 1, 2, 3, 4, 4, 5, 6, 7, 8, 8, 9, 10]
+KEYCLS_CUSTOM = [0, 1, 1, 1, 1, 1, 2, 2, 2, 1, 1, 1, 1, 2, 2]
 MAPOF = [0, 0, 0, 1, 2, 2]
 
 
